@@ -5,6 +5,7 @@ import (
 	"errors"
 	"fmt"
 	"io"
+	"math"
 	"net"
 	"strconv"
 	"strings"
@@ -225,6 +226,10 @@ func (s *redisServer) execute(w *bufio.Writer, args [][]byte) error {
 		delta, err := strconv.ParseInt(string(args[2]), 10, 64)
 		if err != nil {
 			return s.respondError(w, errNotIntegerMsg)
+		}
+		if delta == math.MinInt64 {
+			// -delta does not exist: negating would wrap and escape the overflow check.
+			return s.respondError(w, errOverflowMsg)
 		}
 		return s.execIncrBy(w, args[1], -delta)
 	case "EXISTS":
